@@ -495,10 +495,57 @@ def shard(shard, seed, n):
                 items.append(("\n".join(lines) + "\n", tags, g, g.cards()))
             check_sequence(run, items)
             return
+        if rnd.randrange(100) < 8:
+            check_answer(run, rnd)
+            return
         text, tags, g, cards = gen_script(rnd, shard)
         check_case(run, text, tags, g, cards, rnd)
     drive(body, st.randoms(use_true_random=True), n, derive_seed(seed, "c08", shard))
     return run
+
+
+def check_answer(run, rnd):
+    """The reply of get-value / get-model is SMT-LIB text too: ((t1 v1) (t2 v2) ...).  The symbols exist in the
+    environment (they are not declared in the text); several function symbols share one signature."""
+    from pysmt.smtlib.parser import SmtLibParser
+    g = G(cfg=Cfg(max_depth=2, theories={"bool", "int", "bv", "uf"}, bv_widths=[1, 4], nsyms=2), rnd=rnd)
+    env = Environment()
+    tags = set()
+    w = Writer(rnd, tags=tags, variation=False)
+    pairs = []
+    with env:
+        # function symbols first and last (the last symbol created is a function of the same signature)
+        sig = ("Fun", INT, (INT,))
+        fs = [sym(n, sig) for n in ("fa", "fb", "fc")]
+        built = []
+        for _ in range(rnd.randint(1, 4)):
+            ty = g.choice([BOOL, INT, BV(4)])
+            t = g.term(ty, 2) if rnd.random() < 0.5 else ("FUNCTION", rnd.choice(fs)[1], (g.term(INT, 1),))
+            try:
+                ty = reftype(t)
+                ft = pys.build(env, t)
+            except Exception:
+                continue
+            v = g.constant(ty)
+            pairs.append((t, v))
+            built.append((ft, pys.build(env, v)))
+        for f_ in fs:
+            pys.build(env, f_)
+        if not pairs:
+            return
+        text = "(" + " ".join("(%s %s)" % (w.term(t), w.term(v)) for (t, v) in pairs) + ")\n"
+        case = {"text": text, "tags": ["answer"], "cards": {}}
+        run.case(key=text, nontrivial=any(t[0] == "FUNCTION" for (t, _) in pairs))
+        run.cls("answer:get-value-reply")
+        try:
+            got = SmtLibParser(env).get_assignment_list(StringIO(text))
+        except Exception as e:
+            run.fail({"subcheck": "parse:answer-rejected"}, case,
+                     "get_assignment_list raised %s: %s on a well-formed reply\n text=%s" % (type(e).__name__, str(e)[:200], text[:400]))
+            return
+        if len(got) != len(built) or any(a is not c or b is not d for (a, b), (c, d) in zip(got, built)):
+            run.fail({"subcheck": "parse:answer-misread"}, case,
+                     "reply read as %s, it says %s\n text=%s" % (got, [(str(a), str(b)) for a, b in built], text[:400]))
 
 
 def corpus_check(run):
